@@ -723,7 +723,12 @@ def gen_unit(unit: dict):
             n += 1
             if (i * 7 + j) % stride: continue
             if (i + j) % parts != part: continue
-            if not G.compatible(pa[i], pb[j], broadcast=(sa != sb)): continue      # ill-typed pair
+            if not G.compatible(pa[i], pb[j], broadcast=(sa != sb)):
+                # A pair whose axes have the same sizes but different sum/product structure.  The elementwise binary
+                # operations never unify such axes (they anti-unify: the result pattern is the least general
+                # generalisation), so they must still denote the dense result; every third such pair is kept.
+                if sa != sb or (i + 2 * j) % 3: continue
+                if any(0 in pp["pool"] for pp in (pa[i], pb[j])): continue      # zero-size axes: known finding
             x = others[(i + 2 * j) % 6]; y = others[(3 * i + j + 1) % 6]
             for oi, (name, idv) in enumerate(ident.items()):
                 dps = [(idv, idv), (idv, x), (x, idv), (x, y)]
